@@ -204,6 +204,23 @@ pub fn judge(id: &str, j: &Judged, ctx: &Ctx) -> CaseOut {
             all.push(Violation::new("C08/not-closed-cleanly-after-panic", format!("fail-fast run torn down by the panic `{p}` of a user callback; attempts left without Finished: {open:?}")));
         }
     }
+    if let RunEnd::Stalled(why) | RunEnd::NoProgress(why) = &log.end {
+        // a run that never ends also breaks the closing clauses of other properties
+        let failed_final = m.attempts.iter().any(|a| a.finished.is_some() && a.failed && a.retries.is_none_or(|r| r.1 == 0));
+        if id == "C08" && case.fail_fast() && failed_final {
+            all.push(Violation::new("C08/not-closed-cleanly/stalled", format!("fail-fast run with a final failure never reached run-Finished: {why}")));
+        }
+        let waiting: Vec<String> = m
+            .attempts
+            .iter()
+            .filter(|a| a.finished.is_some() && a.failed && a.retries.is_some_and(|r| r.1 > 0))
+            .filter(|a| !m.attempts.iter().any(|b| b.scenario == a.scenario && b.retries.map(|r| r.0) == a.retries.map(|r| r.0 + 1)))
+            .map(|a| format!("{}{:?}", a.scenario, a.retries))
+            .collect();
+        if id == "C05" && !waiting.is_empty() && !(case.fail_fast() && failed_final) {
+            all.push(Violation::new("C05/retry-never-started/stalled", format!("the run stalled with the retries of {waiting:?} never started: {why}")));
+        }
+    }
     // labels
     if case.lazy {
         labels.push("lazy_parser");
